@@ -55,6 +55,7 @@ theorem C11_please_stop_permanent {s s' : State} {t u : Nat} {l : Label} (hs : s
   split at hs <;> (try (cases hs; done)) <;> (try (cases hs; exact hp))
   all_goals (split at hs <;> (try (cases hs; done)) <;> (try (cases hs; exact hp)) <;> (try exact hS hs) <;> (try exact hJ hs))
   all_goals (try (split at hs <;> (try (cases hs; done)) <;> (try (cases hs; exact hp)) <;> (try exact hS hs) <;> (try exact hJ hs)))
+  all_goals (try (split at hs <;> (try (cases hs; done)) <;> (try (cases hs; exact hp)) <;> (try exact hS hs) <;> (try exact hJ hs)))
   all_goals (try (cases hs; (first | (simp [upd, hp]; done) | (simp only [upd]; split <;> simp_all))))
 
 /-- A thread that has not stopped is still listed under its parent: a stop() issued now on the
